@@ -12,17 +12,22 @@
 #ifndef UP_PFX
 #define UP_PFX "ws://"
 #endif
+#ifndef UP_SCHEME
+#define UP_SCHEME "ws"
+#endif
 #define UP_PFXLEN (sizeof(UP_PFX) - 1)
 char nondet_char(void);
 
 /* getservbyname: ASSUMED to find nothing, or some entry with an arbitrary port */
 #include <netdb.h>
 static struct servent vp_servent;
+size_t g_serv_calls; /* ghost: number of service-database lookups */
 struct servent *
 getservbyname(const char *name, const char *proto)
 {
 	(void) name;
 	(void) proto;
+	g_serv_calls++;
 	if (nondet_bool()) {
 		return (NULL);
 	}
@@ -121,5 +126,256 @@ h_roundtrip(void)
 		nng_url_free(v);
 	}
 	nng_url_free(u);
+	VP_CANARY();
+}
+
+/* ---- nni_url_canonify_uri: normal form + idempotence (2-call lemma) --------
+ * Input: every string of at most UP_CN bytes (array of UP_CN arbitrary bytes +
+ * terminator; an embedded 0 gives the shorter strings).  The array has no
+ * slack: a write past the input length is out of bounds. */
+#ifndef UP_CN
+#define UP_CN 8
+#endif
+void
+h_canon_idem(void)
+{
+	char   a[UP_CN + 1];
+	char   b[UP_CN + 1];
+	size_t n0, n1;
+	nng_err rv;
+
+	for (size_t i = 0; i < UP_CN; i++) {
+		a[i] = nondet_char();
+	}
+	a[UP_CN] = 0;
+	n0 = strlen(a);
+	rv = nni_url_canonify_uri(a);
+	__CPROVER_assert(rv == NNG_OK || rv == NNG_EINVAL, "canonify: result code");
+	/* in place, terminated, never longer than the input */
+	n1 = 0;
+	while (n1 < UP_CN && a[n1] != 0) {
+		n1++;
+	}
+	__CPROVER_assert(a[n1] == 0 && n1 <= n0, "canonify: output terminated and not longer than the input");
+	if (rv != NNG_OK) {
+		VP_CANARY();
+		return;
+	}
+	/* normal form (RFC 3986 6.2.2): escapes, segments */
+	{
+		bool inpath = true;
+		for (size_t i = 0; i < n1; i++) {
+			if (a[i] == '?' || a[i] == '#') {
+				inpath = false;
+			}
+			if (a[i] == '%') {
+				__CPROVER_assert(i + 2 < n1 && URI_UPHEX(a[i + 1]) && URI_UPHEX(a[i + 2]), "canonify: remaining escapes are complete, upper-case hex");
+				__CPROVER_assert(!URI_UNRESERVED(URI_HEXV(a[i + 1]) * 16 + URI_HEXV(a[i + 2])), "canonify: escapes of unreserved characters are decoded");
+				__CPROVER_assert((URI_HEXV(a[i + 1]) * 16 + URI_HEXV(a[i + 2])) < 0x80, "canonify: escaped UTF-8 bytes are decoded (and validated)");
+			}
+			if (inpath && a[i] == '/') {
+				__CPROVER_assert(a[i + 1] != '/', "canonify: no duplicate slash in the path");
+				if (a[i + 1] == '.') {
+					__CPROVER_assert(!URI_SEG_END(a[i + 2]), "canonify: no '.' segment in the path");
+					__CPROVER_assert(!(a[i + 2] == '.' && URI_SEG_END(a[i + 3])), "canonify: no '..' segment in the path");
+				}
+			}
+		}
+	}
+	/* idempotence */
+	memcpy(b, a, sizeof(a));
+	rv = nni_url_canonify_uri(b);
+	__CPROVER_assert(rv == NNG_OK, "idempotence: canonical text is accepted again");
+	for (size_t i = 0; i <= UP_CN; i++) {
+		__CPROVER_assert(i > n1 || b[i] == a[i], "idempotence: canonify(canonify(x)) == canonify(x)");
+	}
+	VP_CANARY();
+}
+
+/* ---- nni_get_port_by_name (REAL, posix_resolv_gai.c): the port text of a URL
+ * Input: every non-empty string of at most UP_PN bytes (url.c rejects the
+ * empty port itself).  A port is accepted without a service-database lookup
+ * only if it is a plain decimal number (digits only: no sign, no white space;
+ * RFC 3986 port = *DIGIT) of value <= 65535, and then the stored port is that
+ * value; every such number is accepted; nothing above 65535 is ever stored. */
+#ifndef UP_PN
+#define UP_PN 7
+#endif
+void
+h_port(void)
+{
+	char     name[UP_PN + 1];
+	uint32_t port = nondet_u32();
+	int      rv;
+	bool     digits = true;
+	uint64_t val    = 0;
+
+	for (size_t i = 0; i < UP_PN; i++) {
+		name[i] = nondet_char();
+	}
+	name[UP_PN] = 0;
+	__CPROVER_assume(name[0] != 0);
+	g_serv_calls = 0;
+	for (size_t i = 0; i < UP_PN && name[i] != 0; i++) {
+		if (name[i] < '0' || name[i] > '9') {
+			digits = false;
+		} else {
+			val = val * 10 + (uint64_t) (name[i] - '0');
+		}
+	}
+	rv = nni_get_port_by_name(name, &port);
+	__CPROVER_assert(rv == 0 || rv == NNG_EADDRINVAL, "port: result code");
+	__CPROVER_assert(rv != 0 || port <= 65535, "port: accepted => 16-bit value");
+	__CPROVER_assert(!(rv == 0 && g_serv_calls == 0) || digits, "port: a numeric port is decimal digits only (no sign, no white space)");
+	__CPROVER_assert(!(rv == 0 && g_serv_calls == 0) || port == val, "port: numeric port has its decimal value (no overflow)");
+	__CPROVER_assert(!(digits && val <= 65535) || (rv == 0 && port == val && g_serv_calls == 0), "port: every decimal number <= 65535 is accepted as itself");
+	VP_CANARY();
+}
+
+/* ---- one parse: acceptance => canonical components; ownership ------------ */
+void
+h_parse_canon(void)
+{
+	char     raw[UP_PFXLEN + UP_N + 1];
+	nng_url *u = NULL;
+	nng_err  rv;
+
+	memcpy(raw, UP_PFX, UP_PFXLEN);
+	for (size_t i = 0; i < UP_N; i++) {
+		raw[UP_PFXLEN + i] = nondet_char();
+	}
+	raw[UP_PFXLEN + UP_N] = 0;
+	rv = nng_url_parse(&u, raw);
+	if (rv != NNG_OK) {
+		__CPROVER_assert(u == NULL, "rejected: caller's pointer untouched");
+		__CPROVER_assert(rv == NNG_EINVAL || rv == NNG_ENOMEM, "rejected: documented error code");
+		VP_CANARY();
+		return;
+	}
+	up_check_canonical(u);
+	__CPROVER_assert(strcmp(u->u_scheme, UP_SCHEME) == 0, "accepted: scheme is the one spelled in the input");
+	__CPROVER_assert(u->u_bufsz == 0 && u->u_buffer == u->u_static, "accepted: short URL lives in the inline buffer");
+	nng_url_free(u);
+	VP_CANARY();
+}
+
+/* ---- nng_url_sprintf / nni_url_asprintf: the printed text -----------------
+ * URL built by the harness: scheme = the constant UP_SCHEME, host <= 4, path
+ * <= 3, query and fragment absent or <= 2 arbitrary bytes, any 16-bit port.
+ * Expected text (C19 / RFC 3986 3): scheme "://" host (in brackets iff it
+ * contains ':') [":" decimal port unless it is the scheme's non-zero default
+ * port] path ["?" query] ["#" fragment]; host-less schemes (ipc, unix, ...)
+ * print scheme "://" path.  The expected text is assembled independently
+ * (up_app), the default port comes from the specification table UP_DEFPORT. */
+#define UP_SH 4
+#define UP_SP 3
+#define UP_SQ 2
+static size_t
+up_app(char *dst, size_t at, const char *s)
+{
+	for (size_t i = 0; s[i] != 0; i++) {
+		dst[at++] = s[i];
+	}
+	dst[at] = 0;
+	return (at);
+}
+static void
+up_fill(char *s, size_t n)
+{
+	for (size_t i = 0; i < n; i++) {
+		s[i] = nondet_char();
+	}
+	s[n] = 0;
+}
+void
+h_sprintf(void)
+{
+	nng_url  u;
+	char     host[UP_SH + 1], path[UP_SP + 1], q[UP_SQ + 1], f[UP_SQ + 1];
+	char     exp[48], txt[48], dec[8];
+	char    *as = NULL;
+	size_t   e  = 0;
+	int      n, n0;
+	bool     colon = false, hostless;
+	uint16_t port  = nondet_u16();
+	nng_err  rv;
+
+	memset(&u, 0, sizeof(u));
+	up_fill(host, UP_SH);
+	up_fill(path, UP_SP);
+	up_fill(q, UP_SQ);
+	up_fill(f, UP_SQ);
+	u.u_scheme   = UP_SCHEME;
+	u.u_hostname = host;
+	u.u_path     = path;
+	u.u_port     = port;
+	u.u_query    = nondet_bool() ? q : NULL;
+	u.u_fragment = nondet_bool() ? f : NULL;
+	hostless     = (strcmp(UP_SCHEME, "ipc") == 0 || strcmp(UP_SCHEME, "inproc") == 0 || strcmp(UP_SCHEME, "unix") == 0 ||
+            strcmp(UP_SCHEME, "abstract") == 0 || strcmp(UP_SCHEME, "socket") == 0);
+	if (hostless) {
+		u.u_hostname = NULL;
+	}
+	for (size_t i = 0; host[i] != 0; i++) {
+		if (host[i] == ':') {
+			colon = true;
+		}
+	}
+	/* expected text */
+	e = up_app(exp, e, UP_SCHEME);
+	e = up_app(exp, e, "://");
+	if (!hostless) {
+		if (colon) {
+			e = up_app(exp, e, "[");
+		}
+		e = up_app(exp, e, host);
+		if (colon) {
+			e = up_app(exp, e, "]");
+		}
+		if (!(port != 0 && port == UP_DEFPORT(UP_SCHEME))) {
+			size_t   d = 0;
+			uint16_t v = port;
+			char     r[6];
+			do {
+				r[d++] = (char) ('0' + v % 10);
+				v /= 10;
+			} while (v != 0);
+			dec[0] = ':';
+			for (size_t i = 0; i < d; i++) {
+				dec[1 + i] = r[d - 1 - i];
+			}
+			dec[1 + d] = 0;
+			e          = up_app(exp, e, dec);
+		}
+	}
+	e = up_app(exp, e, path);
+	if (!hostless && u.u_query != NULL) {
+		e = up_app(exp, e, "?");
+		e = up_app(exp, e, q);
+	}
+	if (!hostless && u.u_fragment != NULL) {
+		e = up_app(exp, e, "#");
+		e = up_app(exp, e, f);
+	}
+
+	n0 = nng_url_sprintf(NULL, 0, &u);
+	n  = nng_url_sprintf(txt, sizeof(txt), &u);
+	__CPROVER_assert(n == n0 && (size_t) n == e, "sprintf: returns the length of the expected text, also for a NULL buffer");
+	for (size_t i = 0; i <= e; i++) {
+		__CPROVER_assert(txt[i] == exp[i], "sprintf: text is scheme://[host]:port path ?query #fragment (IPv6 bracketed, default port omitted)");
+	}
+#ifdef UP_WITH_ASPRINTF
+	rv = nni_url_asprintf(&as, &u);
+	__CPROVER_assert(rv == NNG_OK || rv == NNG_ENOMEM, "asprintf: result code");
+	if (rv == NNG_OK) {
+		__CPROVER_assert(__CPROVER_OBJECT_SIZE(as) == e + 1, "asprintf: block is exactly text + terminator (nni_strfree frees strlen+1)");
+		for (size_t i = 0; i <= e; i++) {
+			__CPROVER_assert(as[i] == exp[i], "asprintf: same text");
+		}
+		nni_free(as, e + 1);
+	} else {
+		__CPROVER_assert(as == NULL, "asprintf: on failure the caller's pointer is untouched and nothing is allocated");
+	}
+#endif
 	VP_CANARY();
 }
